@@ -41,14 +41,23 @@ def assign(v, edges):
 
 
 def smooth(H, sigma):
-    """separable truncated Gaussian, zero padding (the documented smoothing), pure Python"""
+    """separable truncated Gaussian, zero padding (the documented smoothing), pure Python.
+    sigma: scalar or (sigma_x, sigma_y) -- one width per axis of H (axis 0 = first channel); width 0 = no smoothing"""
     nx, ny = len(H), len(H[0])
-    rad = int(6.0 * sigma + 0.5)
-    w = [math.exp(-0.5 * (k / sigma) ** 2) for k in range(-rad, rad + 1)]
-    s = sum(w)
-    w = [x / s for x in w]
+    if isinstance(sigma, (list, tuple)):
+        sx, sy = float(sigma[0]), float(sigma[1])
+    else:
+        sx = sy = float(sigma)
 
-    def conv(line):
+    def kernel(sg):
+        if sg <= 1e-15:
+            return 0, [1.0]
+        rad = int(6.0 * sg + 0.5)
+        w = [math.exp(-0.5 * (k / sg) ** 2) for k in range(-rad, rad + 1)]
+        s = sum(w)
+        return rad, [x / s for x in w]
+
+    def conv(line, rad, w):
         n = len(line)
         out = []
         for i in range(n):
@@ -59,8 +68,10 @@ def smooth(H, sigma):
                     acc += w[k + rad] * line[j]
             out.append(acc)
         return out
-    A = [conv(list(map(float, row))) for row in H]                      # along y
-    cols = [conv([A[i][j] for i in range(nx)]) for j in range(ny)]      # along x
+    ry, wy = kernel(sy)
+    rx, wx = kernel(sx)
+    A = [conv(list(map(float, row)), ry, wy) for row in H]                       # along the second channel
+    cols = [conv([A[i][j] for i in range(nx)], rx, wx) for j in range(ny)]      # along the first channel
     return [[cols[j][i] for j in range(ny)] for i in range(nx)]
 
 
@@ -224,7 +235,7 @@ def nested_check(res, sig, what, masks, n_ingrid_mask, one):
         res.violation(sig + ':f1', '%s: f=1 does not keep exactly the in-grid events' % what, one)
 
 
-SIGMAS = [0.5, 1.0, 3.0]
+SIGMAS = [0.5, 1.0, 3.0, [0.5, 2.0], [2.0, 0.0], 0.0]
 
 
 def run_patterns(c, res):
